@@ -18,7 +18,7 @@ Spec verdict, judged on the IMPLEMENTATION's observation:
 namespace RpmVerif.Driver.C12
 open RpmVerif RpmVerif.Fs RpmVerif.Hdr RpmVerif.PkgFiles RpmVerif.Extract RpmVerif.Driver
 
-def ops : List String := ["extract"]
+def ops : List String := ["extract", "extractmem12"]
 
 def pathText (p : Path) : Bytes := if p.isEmpty then [slash] else p.flatMap (fun c => slash :: c)
 
@@ -134,7 +134,10 @@ def judge (dest : Path) (ready : Bool) (inp? : Option Input) (impl : String) : S
           then "holds" else "fails:unfaithful"
         else "holds"
 
-def handle (_op : String) (args : List String) (impl : String) : String :=
+def handle (op : String) (args : List String) (impl : String) : String :=
+  -- `extractmem12 <spec> …`: `extract` on the un-reparsed value `build()` returned for <spec>; the remaining arguments are those
+  -- of `extract` with <package> = the bytes that value writes (the harness checks that): predicted "same as parse"
+  let args := if op == "extractmem12" then args.drop 1 else args
   -- an optional 5th token `via=…` says how the harness SPELLED the destination for `extract` (relative, through
   -- "..", through a symbolic link of its own): the directory meant — and therefore the model — is the same
   let args := match args with
